@@ -14,8 +14,8 @@ TERR = "aiomysensors.exceptions.TransportError"
 
 def run(ctx: Ctx, chk) -> None:
     chk.assume("A1", "A5", "A6")
-    write_then_forget(ctx, chk)
-    error_propagates(ctx, chk)
+    chk.run_rule(write_then_forget, ctx)
+    chk.run_rule(error_propagates, ctx)
 
 
 def write_then_forget(ctx: Ctx, chk) -> None:
@@ -82,8 +82,14 @@ def write_then_forget(ctx: Ctx, chk) -> None:
                 tests = [x for x in p if x.kind == "test"]
                 from .c09 import revalidation
 
-                if tests and all(revalidation(t.ast, "set_messages", fl.key_name or "") is not None for t in tests):
-                    chk.ok(rule, k, "removal skipped only when the entry was replaced meanwhile (identity re-validation)", ctx.loc(f, s.ast))
+                def still_there(t):
+                    te = t.ast
+                    if revalidation(te, "set_messages", fl.key_name or "") is not None:
+                        return True
+                    return isinstance(te, ast.Compare) and len(te.ops) == 1 and isinstance(te.ops[0], ast.In) and norm(te.left) == (fl.key_name or "") and sb.buffer_attr(te.comparators[0]) == "set_messages"
+
+                if tests and all(still_there(t) for t in tests):
+                    chk.ok(rule, k, "removal skipped only when the entry is no longer the one that was written (gone or replaced)", ctx.loc(f, s.ast))
                 else:
                     chk.refute(rule, k, f"a normal path from the send reaches the next iteration without removing the entry ({' -> '.join(g.path_text(p)[:4])}): a written command is written again at the next wake", ctx.loc(f, s.ast))
     # no other function removes from set_messages
